@@ -407,6 +407,25 @@ theorem C07_mark_pass_targets {p : Nat → Bool} {subs : List Sub} (fuel : Nat) 
         b.atype = ATTACH_MARK ∧ b.chain = (t : Int) - (i : Int) ∧ i - t ≤ CHAIN_MAX ∧ b.xa = a.xa ∧ b.ya = a.ya) :=
   applyForward_targets fuel h hs hps hlen hinv
 
+/- Full statement without the `SubsAdm` hypothesis (FALSE of the code, see `known_C07_base_cache_shared`): "every
+   MarkToBase subtable links the glyph to the nearest glyph admissible under ITS OWN base coverage".  The subtables
+   of one lookup share the cache, and `baseAdm` depends on the subtable's base coverage for the later glyphs of a
+   MultipleSubst sequence (harfbuzz#4124): a subtable called at the same `idx` after another one reuses the base
+   found under the other one's coverage.  HarfBuzz's `c->last_base` is shared in the same way. -/
+
+/-- witness: `<6 6 5>` where `6 6` is a MultipleSubst sequence and 5 a mark; subtable 2 (base coverage {6}) alone
+    links the mark to the second 6 (its nearest admissible glyph); preceded by subtable 1 (base coverage {1}: never
+    applies here) it links the mark to the first 6. -/
+theorem known_C07_base_cache_shared :
+    let info : List Info := [{ gid := 6, mask := 1, var1 := 0x52 }, { gid := 6, mask := 1, var1 := 0x52 + 65536 }, { gid := 5, mask := 1, var1 := 8 }]
+    let c : Ctx := { font := {}, info := info, len := 3, pos := #[{ xa := 500 }, { xa := 500 }, {}] }
+    let sub1 : Sub := .markBase [5] [1] [(0, 0, 0)] { rows := 1, cols := 1, flat := [some (111, 111)] }
+    let sub2 : Sub := .markBase [5] [6] [(0, 10, 20)] { rows := 1, cols := 1, flat := [some (300, 400)] }
+    ((applyForward [sub2] 3 c).toOption.map (fun r => r.pos.map (·.chain))) = some #[0, 0, -1] ∧
+    ((applyForward [sub1, sub2] 3 c).toOption.map (fun r => r.pos.map (·.chain))) = some #[0, 0, -2] ∧
+    lastOk (baseAdm c [6]) 2 = 1 := by
+  decide +kernel
+
 /-- non-vacuity of `SubsAdm` / `CacheOk`: a MarkToLigature lookup and the fresh cache -/
 example : ∃ (c : Ctx) (p : Nat → Bool), SubsAdm c p [.markLig [3] [1] [(0, 0, 0)] []] ∧ CacheOk p c ∧ c.perSyllable = false :=
   ⟨{ font := {}, info := [], len := 0, pos := #[] }, _,
